@@ -20,7 +20,9 @@ Record c19txn := mkTx {
   tcalls : list bcall;                       (* commit / rollback time *)
   tview : option (list (Z * option N))       (* fresh-process read after the transaction *)
 }.
-Record c19case := mkCase { copts : opts; ctxns : list c19txn }.
+Inductive c19case :=
+| mkCase (o : opts) (txns : list c19txn)
+| SlotNorm (requested effective : Z).   (* sop.NewStoreInfo(SlotLength: requested).SlotLength = effective *)
 
 Definition act_code (a : action) : N := match a with AGet => 1 | AAdd => 2 | AUpdate => 3 | ARemove => 4 end.
 
@@ -117,7 +119,11 @@ Fixpoint run_txns (o : opts) (d : dstate) (l : list c19txn) : bool :=
       ok1 && ok2 && ok3 && ok4 && run_txns o d1 rest
   end.
 
-Definition c19_check (c : c19case) : bool := run_txns (copts c) d0 (ctxns c).
+Definition c19_check (c : c19case) : bool :=
+  match c with
+  | mkCase o txns => run_txns o d0 txns
+  | SlotNorm r e => Z.eqb (slot_norm r) e
+  end.
 
 (* the driver's cases files call [mismatches] *)
 Fixpoint mismatches_from {A} (f : A -> bool) (l : list A) (i : nat) : list nat :=
